@@ -9,6 +9,15 @@ HEADER = "From Coq Require Import List Arith Bool.\nImport ListNotations.\nFrom 
 INDEX_FILES = re.compile(r"(index\.(mjs|d\.ts)|lib\.g\.dart|Lib\.kt|_ext\.cpp|build\.gradle\.kts|settings\.gradle\.kts|diplomat.*|pyproject\.toml)$")
 
 NOISE = r'''
+// non-bridge modules that sort before, between and after the bridge modules and carry backend attributes of their own
+#[diplomat::attr(*, rename = "Leak{0}")]
+pub mod aaa_detail { pub struct Point { pub x: u8 } }
+#[diplomat::attr(*, namespace = "leaked")]
+mod ffi0_detail { pub struct Ty1; }
+#[diplomat::attr(*, disable)]
+mod ffi { pub fn nothing() {} }
+#[diplomat::abi_rename = "leak_{0}"]
+mod ffi1a { pub struct Ty2; }
 pub struct Widget { pub unrelated: u64 }      // same name as a bridge type, outside any bridge
 pub fn free_function() -> u32 { 7 }
 pub mod helper {
